@@ -279,7 +279,12 @@ where
                                 Ok(decoded) => {
                                     inner.update_timer(&decoded);
                                     if let Some(el) = decoded.item {
-                                        inner.call_service(cx, el);
+                                        if inner.call_service(cx, el) {
+                                            // let the spawned call start before the next frame is
+                                            // read, the service has to see the request (in-flight limits)
+                                            cx.waker().wake_by_ref();
+                                            return Poll::Pending;
+                                        }
                                     } else {
                                         return Poll::Pending;
                                     }
@@ -384,7 +389,8 @@ where
         self.st = IoDispatcherState::Stop(Some(fut));
     }
 
-    fn call_service(&mut self, cx: &mut Context<'_>, item: Request<U>) {
+    /// Returns `true` if the call is handed over to a separate task
+    fn call_service(&mut self, cx: &mut Context<'_>, item: Request<U>) -> bool {
         let mut fut = self.service.call_nowait(item);
         let mut queue = self.state.queue.borrow_mut();
 
@@ -412,6 +418,7 @@ where
                     st.notify_dispatcher();
                 }
             });
+            return true;
         } else if let Poll::Ready(res) = Pin::new(&mut fut).poll(cx) {
             // check if current result is only response
             if queue.is_empty() {
@@ -435,6 +442,7 @@ where
             self.state.response_idx.set(self.state.base.get().wrapping_add(queue.len()));
             queue.push_back(ServiceResult::Pending);
         }
+        false
     }
 
     fn poll_service(&mut self, cx: &mut Context<'_>) -> Poll<PollService> {
